@@ -11,6 +11,7 @@ From Minter Require GenesisRun.
 From Minter Require CandAuth.
 From Minter Require FeeRoute.
 From Minter Require PowerTable.
+From Minter Require CoinSupply.
 From Minter Require SwapTx.
 From Minter Require SwapTxRun.
 From Minter Require Crash.
@@ -249,6 +250,7 @@ Definition dispatch (model : Z) (ops : list (list Z)) : list (list Z) :=
   | 16 => Crash.crash_run ops
   | 18 => map GenesisRun.run_genesis_op ops
   | 19 => run_states SwapTxRun.swaptx_step SwapTxRun.swaptx_init ops
+  | 24 => map CoinSupply.run_coinsupply_op ops
   | 23 => map PowerTable.run_powertable_op ops
   | 22 => map FeeRoute.run_feeroute_op ops
   | 21 => map CandAuth.run_candauth_op ops
